@@ -351,16 +351,21 @@ class SemWalker:
             step = f.get("step")
             # evaluation of nested wrappers: outermost first.  With a loop that re-wraps
             # its accumulator the LAST iteration is outermost.
-            begin = self.emit("nest-begin", over, t, st)
-            n0 = len(self.events)
-            self.walk(step, st.copy(mult=st.mult + (over,), role="$Nest.step"))
-            inner = self.events[n0:]
-            hole_pos = [e.pos for e in inner if e.kind == "nest-hole"]
-            user_pos = [e.pos for e in inner if e.kind in ("X", "raw", "S", "param", "unknown")]
+            probe = SemWalker()
+            probe.walk(step, State())
+            hole_pos = [e.pos for e in probe.events if e.kind == "nest-hole"]
+            user_pos = [e.pos for e in probe.events if e.kind in ("X", "raw", "S", "param", "unknown")]
             # accumulator evaluated before this step's own holes => earlier iterations run first
-            begin.extra["hole_first"] = bool(hole_pos) and (not user_pos or min(hole_pos) < min(user_pos))
+            hole_first = bool(hole_pos) and (not user_pos or min(hole_pos) < min(user_pos))
+            begin = self.emit("nest-begin", over, t, st)
+            begin.extra["hole_first"] = hole_first
             begin.extra["hole_seen"] = bool(hole_pos)
-            self.walk(f.get("init"), sub("init"))
+            if hole_first:
+                self.walk(f.get("init"), sub("init"))
+                self.walk(step, st.copy(mult=st.mult + (over,), role="$Nest.step"))
+            else:
+                self.walk(step, st.copy(mult=st.mult + (over,), role="$Nest.step"))
+                self.walk(f.get("init"), sub("init"))
             self.emit("nest-end", over, t, st)
             return
         if k == "$NestHole":
